@@ -478,7 +478,9 @@ func (x *Exec) execInstr(f *Frame, b *ssa.BasicBlock, ins ssa.Instruction) {
 	case *ssa.Panic:
 		x.execPanic(f, i.Pos(), "panic")
 	case *ssa.Go:
-		x.fail("go statement")
+		// the spawned call is not executed: goroutines are not modelled (standing assumption); its
+		// effects on the heap, if any, are invisible to the proof
+		x.note("go statement in " + x.fnKeyShort() + ": the spawned call is not executed (goroutines are not modelled)")
 	case *ssa.Send, *ssa.Select:
 		x.fail("channel operation")
 	default:
